@@ -17,6 +17,8 @@ import (
 	"image/color"
 	"math"
 	"math/rand"
+	"runtime"
+	"time"
 
 	"github.com/EliCDavis/polyform/formats/gltf"
 	"github.com/EliCDavis/polyform/formats/obj"
@@ -61,6 +63,8 @@ type Env struct {
 	// number of neighbours inside a radius (implicit weld distance) stay small so that
 	// every operation remains linear in the mesh size.
 	Large bool
+	// FanOut: drive the Parallel variants with more workers than elements and a slow callback.
+	FanOut bool
 }
 
 // Call is one fully parameterised invocation.
@@ -74,7 +78,12 @@ type Call struct {
 	// completed by a following call (ClearAttributeData); its bare result is not
 	// claimed to be well-formed.
 	Intermediate bool
-	Run          func() ([]modeling.Mesh, error)
+	// Async: the operation fans work out to goroutines (Parallel variants); a caller that
+	// wants to see late writes re-reads the result after a short wait.
+	Async bool
+	// Evidence: a short tag the monitors count (which hazardous shape this call has).
+	Evidence string
+	Run      func() ([]modeling.Mesh, error)
 }
 
 type Op struct {
@@ -495,8 +504,16 @@ func All() []Op {
 		name, ok := pick(r, rec.Float1Attributes(), pal1, e)
 		k, variant := scalar(r), r.Intn(3)
 		pool := poolSize(r, e)
-		f := func(i int, v float64) float64 { return v*k + float64(i) }
-		return Call{Desc: fmt.Sprintf("ModifyFloat1Attribute/%d(%s,pool %d)", variant, name, pool), Pre: ok && (variant != 2 || pool >= 1),
+		slow := slowCallback(r, rec, variant)
+		if e.FanOut {
+			variant, pool = 1+r.Intn(2), []int{8, 16, runtime.NumCPU()}[r.Intn(3)]
+			slow = time.Duration(100+r.Intn(400)) * time.Microsecond
+		}
+		f := func(i int, v float64) float64 {
+			dawdle(slow)
+			return v*k + float64(i)
+		}
+		return Call{Desc: fmt.Sprintf("ModifyFloat1Attribute/%d(%s,pool %d,slow %v)", variant, name, pool, slow), Async: variant != 0, Evidence: fanOutShape(rec, variant, pool, slow), Pre: ok && (variant != 2 || pool >= 1),
 			Run: func() ([]modeling.Mesh, error) {
 				switch variant {
 				case 0:
@@ -512,8 +529,16 @@ func All() []Op {
 		name, ok := pick(r, rec.Float2Attributes(), pal2, e)
 		k, variant := scalar(r), r.Intn(3)
 		pool := poolSize(r, e)
-		f := func(i int, v vector2.Float64) vector2.Float64 { return v.Scale(k).Add(vector2.New(float64(i), 1)) }
-		return Call{Desc: fmt.Sprintf("ModifyFloat2Attribute/%d(%s,pool %d)", variant, name, pool), Pre: ok && (variant != 2 || pool >= 1),
+		slow := slowCallback(r, rec, variant)
+		if e.FanOut {
+			variant, pool = 1+r.Intn(2), []int{8, 16, runtime.NumCPU()}[r.Intn(3)]
+			slow = time.Duration(100+r.Intn(400)) * time.Microsecond
+		}
+		f := func(i int, v vector2.Float64) vector2.Float64 {
+			dawdle(slow)
+			return v.Scale(k).Add(vector2.New(float64(i), 1))
+		}
+		return Call{Desc: fmt.Sprintf("ModifyFloat2Attribute/%d(%s,pool %d,slow %v)", variant, name, pool, slow), Async: variant != 0, Evidence: fanOutShape(rec, variant, pool, slow), Pre: ok && (variant != 2 || pool >= 1),
 			Run: func() ([]modeling.Mesh, error) {
 				switch variant {
 				case 0:
@@ -529,8 +554,16 @@ func All() []Op {
 		name, ok := pick(r, rec.Float3Attributes(), pal3, e)
 		k, variant := scalar(r), r.Intn(3)
 		pool := poolSize(r, e)
-		f := func(i int, v vector3.Float64) vector3.Float64 { return v.Scale(k).Add(vector3.New(float64(i), 1, 2)) }
-		return Call{Desc: fmt.Sprintf("ModifyFloat3Attribute/%d(%s,pool %d)", variant, name, pool), Pre: ok && (variant != 2 || pool >= 1),
+		slow := slowCallback(r, rec, variant)
+		if e.FanOut {
+			variant, pool = 1+r.Intn(2), []int{8, 16, runtime.NumCPU()}[r.Intn(3)]
+			slow = time.Duration(100+r.Intn(400)) * time.Microsecond
+		}
+		f := func(i int, v vector3.Float64) vector3.Float64 {
+			dawdle(slow)
+			return v.Scale(k).Add(vector3.New(float64(i), 1, 2))
+		}
+		return Call{Desc: fmt.Sprintf("ModifyFloat3Attribute/%d(%s,pool %d,slow %v)", variant, name, pool, slow), Async: variant != 0, Evidence: fanOutShape(rec, variant, pool, slow), Pre: ok && (variant != 2 || pool >= 1),
 			Run: func() ([]modeling.Mesh, error) {
 				switch variant {
 				case 0:
@@ -625,6 +658,65 @@ func All() []Op {
 		return Call{Desc: fmt.Sprintf("WeldByFloat3Attribute(%s,%d)", name, dec), Pre: ok && isTri(rec.Topology()),
 			Run: func() ([]modeling.Mesh, error) { return one(rec.WeldByFloat3Attribute(name, dec)) }}
 	}})
+	add(Op{Name: "Mesh.SetFloat*Attribute(non-finite values)", Group: "special", Kind: Derive, Make: func(r *rand.Rand, m *modeling.Mesh, e *Env) Call {
+		rec := *m
+		// copy one existing attribute (read through its iterator), overwrite a few components with
+		// NaN (several payloads), ±Inf and -0, and set it back: the value class that a query or an
+		// operation might "clean up" in place
+		var cands []string
+		for _, a := range rec.Float3Attributes() {
+			cands = append(cands, "3:"+a)
+		}
+		for _, a := range rec.Float1Attributes() {
+			cands = append(cands, "1:"+a)
+		}
+		for _, a := range rec.Float2Attributes() {
+			cands = append(cands, "2:"+a)
+		}
+		if len(cands) == 0 {
+			return Call{Desc: "no attribute to poison", Pre: false, Run: func() ([]modeling.Mesh, error) { return one(rec) }}
+		}
+		c := cands[r.Intn(len(cands))]
+		name := c[2:]
+		var run func() ([]modeling.Mesh, error)
+		switch c[0] {
+		case '3':
+			it := rec.Float3Attribute(name)
+			d := make([]vector3.Float64, it.Len())
+			for i := range d {
+				v := it.At(i)
+				if r.Intn(4) == 0 || i == 0 {
+					x := [3]float64{v.X(), v.Y(), v.Z()}
+					x[r.Intn(3)] = special(r)
+					v = vector3.New(x[0], x[1], x[2])
+				}
+				d[i] = v
+			}
+			run = func() ([]modeling.Mesh, error) { return one(rec.SetFloat3Attribute(name, d)) }
+		case '2':
+			it := rec.Float2Attribute(name)
+			d := make([]vector2.Float64, it.Len())
+			for i := range d {
+				v := it.At(i)
+				if r.Intn(4) == 0 || i == 0 {
+					v = vector2.New(special(r), v.Y())
+				}
+				d[i] = v
+			}
+			run = func() ([]modeling.Mesh, error) { return one(rec.SetFloat2Attribute(name, d)) }
+		default:
+			it := rec.Float1Attribute(name)
+			d := make([]float64, it.Len())
+			for i := range d {
+				d[i] = it.At(i)
+				if r.Intn(4) == 0 || i == 0 {
+					d[i] = special(r)
+				}
+			}
+			run = func() ([]modeling.Mesh, error) { return one(rec.SetFloat1Attribute(name, d)) }
+		}
+		return Call{Desc: "poison " + c, Pre: true, Run: run}
+	}})
 	add(Op{Name: "Mesh.ClearAttributeData", Group: "mesh", Kind: Derive, Make: func(r *rand.Rand, m *modeling.Mesh, e *Env) Call {
 		rec := *m
 		return Call{Desc: "ClearAttributeData", Pre: true, Intermediate: true,
@@ -701,42 +793,42 @@ func All() []Op {
 	add(Op{Name: "meshops.FilterFloat1", Group: "meshops", Kind: Derive, Topo: isPoint, StrictTopo: true, Make: func(r *rand.Rand, m *modeling.Mesh, e *Env) Call {
 		rec := *m
 		name, ok := pick(r, rec.Float1Attributes(), pal1, e)
-		th := scalar(r)
-		f := func(v float64) bool { return v > th }
+		th, pm := scalar(r), predMode(r)
+		f := func(v float64) bool { return pm == 1 || (pm == 0 && v > th) }
 		if r.Intn(2) == 0 {
-			return Call{Desc: "FilterFloat1(" + name + ")", Pre: ok, Run: func() ([]modeling.Mesh, error) { return one(meshops.FilterFloat1(rec, name, f)) }}
+			return Call{Desc: "FilterFloat1(" + name + predName[pm] + ")", Pre: ok, Run: func() ([]modeling.Mesh, error) { return one(meshops.FilterFloat1(rec, name, f)) }}
 		}
-		return Call{Desc: "FilterFloat1Transformer(" + name + ")", Pre: ok, Run: viaTransformer(r, rec, meshops.FilterFloat1Transformer{Attribute: name, Filter: f})}
+		return Call{Desc: "FilterFloat1Transformer(" + name + predName[pm] + ")", Pre: ok, Run: viaTransformer(r, rec, meshops.FilterFloat1Transformer{Attribute: name, Filter: f})}
 	}})
 	add(Op{Name: "meshops.FilterFloat2", Group: "meshops", Kind: Derive, Topo: isPoint, StrictTopo: true, Make: func(r *rand.Rand, m *modeling.Mesh, e *Env) Call {
 		rec := *m
 		name, ok := pick(r, rec.Float2Attributes(), pal2, e)
-		th := scalar(r)
-		f := func(v vector2.Float64) bool { return v.X() > th }
+		th, pm := scalar(r), predMode(r)
+		f := func(v vector2.Float64) bool { return pm == 1 || (pm == 0 && v.X() > th) }
 		if r.Intn(2) == 0 {
-			return Call{Desc: "FilterFloat2(" + name + ")", Pre: ok, Run: func() ([]modeling.Mesh, error) { return one(meshops.FilterFloat2(rec, name, f)) }}
+			return Call{Desc: "FilterFloat2(" + name + predName[pm] + ")", Pre: ok, Run: func() ([]modeling.Mesh, error) { return one(meshops.FilterFloat2(rec, name, f)) }}
 		}
-		return Call{Desc: "FilterFloat2Transformer(" + name + ")", Pre: ok, Run: viaTransformer(r, rec, meshops.FilterFloat2Transformer{Attribute: name, Filter: f})}
+		return Call{Desc: "FilterFloat2Transformer(" + name + predName[pm] + ")", Pre: ok, Run: viaTransformer(r, rec, meshops.FilterFloat2Transformer{Attribute: name, Filter: f})}
 	}})
 	add(Op{Name: "meshops.FilterFloat3", Group: "meshops", Kind: Derive, Topo: isPoint, StrictTopo: true, Make: func(r *rand.Rand, m *modeling.Mesh, e *Env) Call {
 		rec := *m
 		name, ok := pick(r, rec.Float3Attributes(), pal3, e)
-		th := scalar(r)
-		f := func(v vector3.Float64) bool { return v.Y() > th }
+		th, pm := scalar(r), predMode(r)
+		f := func(v vector3.Float64) bool { return pm == 1 || (pm == 0 && v.Y() > th) }
 		if r.Intn(2) == 0 {
-			return Call{Desc: "FilterFloat3(" + name + ")", Pre: ok, Run: func() ([]modeling.Mesh, error) { return one(meshops.FilterFloat3(rec, name, f)) }}
+			return Call{Desc: "FilterFloat3(" + name + predName[pm] + ")", Pre: ok, Run: func() ([]modeling.Mesh, error) { return one(meshops.FilterFloat3(rec, name, f)) }}
 		}
-		return Call{Desc: "FilterFloat3Transformer(" + name + ")", Pre: ok, Run: viaTransformer(r, rec, meshops.FilterFloat3Transformer{Attribute: name, Filter: f})}
+		return Call{Desc: "FilterFloat3Transformer(" + name + predName[pm] + ")", Pre: ok, Run: viaTransformer(r, rec, meshops.FilterFloat3Transformer{Attribute: name, Filter: f})}
 	}})
 	add(Op{Name: "meshops.FilterFloat4", Group: "meshops", Kind: Derive, Topo: isPoint, StrictTopo: true, Make: func(r *rand.Rand, m *modeling.Mesh, e *Env) Call {
 		rec := *m
 		name, ok := pick(r, rec.Float4Attributes(), pal4, e)
-		th := scalar(r)
-		f := func(v vector4.Float64) bool { return v.W() > th }
+		th, pm := scalar(r), predMode(r)
+		f := func(v vector4.Float64) bool { return pm == 1 || (pm == 0 && v.W() > th) }
 		if r.Intn(2) == 0 {
-			return Call{Desc: "FilterFloat4(" + name + ")", Pre: ok, Run: func() ([]modeling.Mesh, error) { return one(meshops.FilterFloat4(rec, name, f)) }}
+			return Call{Desc: "FilterFloat4(" + name + predName[pm] + ")", Pre: ok, Run: func() ([]modeling.Mesh, error) { return one(meshops.FilterFloat4(rec, name, f)) }}
 		}
-		return Call{Desc: "FilterFloat4Transformer(" + name + ")", Pre: ok, Run: viaTransformer(r, rec, meshops.FilterFloat4Transformer{Attribute: name, Filter: f})}
+		return Call{Desc: "FilterFloat4Transformer(" + name + predName[pm] + ")", Pre: ok, Run: viaTransformer(r, rec, meshops.FilterFloat4Transformer{Attribute: name, Filter: f})}
 	}})
 	add(Op{Name: "meshops.FlatNormals", Group: "meshops", Kind: Derive, Topo: isTri, Make: func(r *rand.Rand, m *modeling.Mesh, e *Env) Call {
 		rec := *m
@@ -1108,15 +1200,82 @@ func All() []Op {
 			return one(ret) // Scan* return the receiver: it joins the pool as one more alias
 		}}
 	}})
-	add(Op{Name: "Mesh.spatial", Group: "observe", Kind: Observe, Make: func(r *rand.Rand, m *modeling.Mesh, e *Env) Call {
+	add(Op{Name: "Mesh.queries", Group: "observe", Kind: Observe, Make: func(r *rand.Rand, m *modeling.Mesh, e *Env) Call {
 		rec := *m
-		pre := rec.HasFloat3Attribute(modeling.PositionAttribute) && (isTri(rec.Topology()) || isPoint(rec.Topology())) && rec.Indices().Len() > 0
-		return Call{Desc: "BoundingBox+OctTree+VertexNeighborTable", Pre: pre, Run: func() ([]modeling.Mesh, error) {
-			_ = rec.BoundingBox(modeling.PositionAttribute)
-			tree := rec.OctTree()
-			_, _ = tree.ClosestPoint(vector3.Zero[float64]())
+		depth := 1 + r.Intn(3)
+		p := vec3(r)
+		// Pure queries: every one runs on its own (a panic of one - ill-formed receiver,
+		// unsupported topology, non-finite values - does not skip the others).
+		return Call{Desc: fmt.Sprintf("BoundingBox(every v3)+OctTree(depth %d)+VertexNeighborTable+Tri accessors+iterators", depth), Pre: true, Run: func() ([]modeling.Mesh, error) {
+			quietly(func() { _ = rec.PrimitiveCount() })
+			quietly(func() { _ = rec.AttributeLength() })
+			for _, a := range rec.Float3Attributes() {
+				a := a
+				quietly(func() { _ = rec.BoundingBox(a) })
+				quietly(func() {
+					it := rec.Float3Attribute(a)
+					for i := 0; i < it.Len(); i++ {
+						_ = it.At(i)
+					}
+				})
+			}
+			quietly(func() {
+				for _, a := range rec.Float1Attributes() {
+					it := rec.Float1Attribute(a)
+					for i := 0; i < it.Len(); i++ {
+						_ = it.At(i)
+					}
+				}
+				for _, a := range rec.Float2Attributes() {
+					it := rec.Float2Attribute(a)
+					for i := 0; i < it.Len(); i++ {
+						_ = it.At(i)
+					}
+				}
+				for _, a := range rec.Float4Attributes() {
+					it := rec.Float4Attribute(a)
+					for i := 0; i < it.Len(); i++ {
+						_ = it.At(i)
+					}
+				}
+				it := rec.Indices()
+				for i := 0; i < it.Len(); i++ {
+					_ = it.At(i)
+				}
+			})
+			finite := finitePositions(rec)
+			if (isTri(rec.Topology()) || isPoint(rec.Topology())) && rec.Indices().Len() > 0 && finite {
+				quietly(func() {
+					tree := rec.OctTree()
+					_, _ = tree.ClosestPoint(p)
+					_ = tree.ElementsWithinRange(p, 1)
+				})
+				quietly(func() { _ = rec.OctTreeDepth(depth) })
+				for _, a := range rec.Float3Attributes() {
+					a := a
+					if finiteAttr(rec, a) {
+						quietly(func() { _ = rec.OctTreeWithAttributeAndDepth(a, depth) })
+					}
+				}
+			}
+			quietly(func() { _ = rec.VertexNeighborTable() })
 			if isTri(rec.Topology()) {
-				_ = rec.VertexNeighborTable()
+				for _, a := range rec.Float3Attributes() {
+					a := a
+					quietly(func() {
+						for i := 0; i < rec.Indices().Len()/3; i++ {
+							t := rec.Tri(i)
+							_, _, _ = t.P1Vec3Attr(a), t.P2Vec3Attr(a), t.P3Vec3Attr(a)
+							_ = t.BoundingBox(a)
+							_ = t.Area3D(a)
+							_ = t.Average(a)
+							_ = t.ClosestPoint(a, p)
+							_ = t.Plane(a)
+							_ = t.Scope(a).BoundingBox()
+							_ = t.UniqueVertices()
+						}
+					})
+				}
 			}
 			return nil, nil
 		}}
@@ -1226,7 +1385,41 @@ func poolSize(r *rand.Rand, e *Env) int {
 	if !e.Valid && (r.Intn(10) == 0 || (e.Hostile && r.Intn(2) == 0)) {
 		return -r.Intn(2)
 	}
+	if r.Intn(2) == 0 { // more workers than most receivers have elements
+		return []int{8, 16, runtime.NumCPU()}[r.Intn(3)]
+	}
 	return 1 + r.Intn(6)
+}
+
+// slowCallback: for the parallel variants on small receivers the callback takes a
+// seeded 100–500 µs per element, so that a fan-out that returns before its last
+// worker has finished is still writing when the caller reads the result.
+func slowCallback(r *rand.Rand, m modeling.Mesh, variant int) time.Duration {
+	d := time.Duration(100+r.Intn(400)) * time.Microsecond
+	if L, _ := AttrInfo(m); variant == 0 || L > 16 || r.Intn(2) == 0 {
+		return 0
+	}
+	return d
+}
+
+func dawdle(d time.Duration) {
+	if d > 0 {
+		runtime.Gosched()
+		time.Sleep(d)
+	}
+}
+
+var predName = [3]string{"", ",keep-all", ",keep-none"}
+
+// predMode: 0 threshold predicate, 1 keeps every vertex, 2 keeps none.
+func predMode(r *rand.Rand) int {
+	switch r.Intn(8) {
+	case 0, 1:
+		return 1
+	case 2:
+		return 2
+	}
+	return 0
 }
 
 func attrLenAny(m modeling.Mesh) int {
@@ -1269,4 +1462,56 @@ func noNilMaterial(m modeling.Mesh) bool {
 		}
 	}
 	return true
+}
+
+// special draws a non-finite or signed-zero value; NaNs come with different payloads.
+func special(r *rand.Rand) float64 {
+	switch r.Intn(6) {
+	case 0:
+		return math.NaN()
+	case 1:
+		return math.Float64frombits(0x7ff8000000000000 | uint64(1+r.Intn(1<<20)))
+	case 2:
+		return math.Float64frombits(0xfff8000000000000 | uint64(1+r.Intn(1<<20))) // negative quiet NaN
+	case 3:
+		return math.Inf(1)
+	case 4:
+		return math.Inf(-1)
+	}
+	return math.Copysign(0, -1)
+}
+
+func quietly(f func()) {
+	defer func() { _ = recover() }()
+	f()
+}
+
+func finiteAttr(m modeling.Mesh, a string) bool {
+	it := m.Float3Attribute(a)
+	for i := 0; i < it.Len(); i++ {
+		v := it.At(i)
+		if math.IsNaN(v.X()+v.Y()+v.Z()) || math.IsInf(v.X()+v.Y()+v.Z(), 0) {
+			return false
+		}
+	}
+	return true
+}
+
+func finitePositions(m modeling.Mesh) bool {
+	return m.HasFloat3Attribute(modeling.PositionAttribute) && finiteAttr(m, modeling.PositionAttribute)
+}
+
+// fanOutShape tags the parallel calls whose worker count exceeds the element count.
+func fanOutShape(m modeling.Mesh, variant, pool int, slow time.Duration) string {
+	L, _ := AttrInfo(m)
+	if variant == 1 {
+		pool = runtime.NumCPU()
+	}
+	if variant == 0 || pool <= L || L == 0 {
+		return ""
+	}
+	if slow > 0 {
+		return "parallel_modify_more_workers_than_elements_slow_callback"
+	}
+	return "parallel_modify_more_workers_than_elements"
 }
